@@ -9,47 +9,57 @@
 (* and the overflow counter reported to the metrics recorder must equal it. *)
 (* Also: no entry is handed over twice, and only appended entries are.      *)
 (***************************************************************************)
-EXTENDS Naturals, Sequences, FiniteSets, TLC, Json, IOUtils
+EXTENDS Integers, Sequences, FiniteSets, TLC, Json, IOUtils
 
 Rec == ndJsonDeserialize(IOEnv.TRACE)
 N == Len(Rec)
 
-VARIABLES l, appended, handed, dropEnded, lateAppend, closed
-cvars == <<l, appended, handed, dropEnded, lateAppend, closed>>
+VARIABLES l, appended, handed, dropEnded, lateAppend, closed,
+          ivals, nmany   \* AppMany{a,b}: ids a..b appended by one thread (pairwise disjoint id ranges), and their number
+cvars == <<l, appended, handed, dropEnded, lateAppend, closed, ivals, nmany>>
 
 Ev(name) == l <= N /\ Rec[l].ev = name
 Adv == l' = l + 1
 
 CInit == l = 1 /\ appended = {} /\ handed = {} /\ dropEnded = FALSE /\ lateAppend = FALSE
-         /\ closed = FALSE /\ TLCSet(1, 1)
+         /\ closed = FALSE /\ ivals = {} /\ nmany = 0 /\ TLCSet(1, 1)
 
 CReset == Ev("Reset") /\ Adv /\ appended' = {} /\ handed' = {} /\ dropEnded' = FALSE
-          /\ lateAppend' = FALSE /\ closed' = FALSE
+          /\ lateAppend' = FALSE /\ closed' = FALSE /\ ivals' = {} /\ nmany' = 0
 CAppEnd == /\ Ev("AppEnd") /\ Adv
            /\ Rec[l].e \notin appended
            /\ appended' = appended \cup {Rec[l].e}
            /\ lateAppend' = (lateAppend \/ dropEnded)
-           /\ UNCHANGED <<handed, dropEnded, closed>>
+           /\ UNCHANGED <<handed, dropEnded, closed, ivals, nmany>>
 \* handed over at most once; (an AppEnd may be logged after the hand-off of its entry, so
 \* membership in `appended` is checked at the end, in COverflows)
 CNext == /\ Ev("Next") /\ Adv /\ ~closed
          /\ Rec[l].e \notin handed
          /\ handed' = handed \cup {Rec[l].e}
-         /\ UNCHANGED <<appended, dropEnded, lateAppend, closed>>
-CClose == Ev("Close") /\ Adv /\ closed' = TRUE /\ UNCHANGED <<appended, handed, dropEnded, lateAppend>>
+         /\ UNCHANGED <<appended, dropEnded, lateAppend, closed, ivals, nmany>>
+CClose == Ev("Close") /\ Adv /\ closed' = TRUE /\ UNCHANGED <<appended, handed, dropEnded, lateAppend, ivals, nmany>>
 CDropEnd == Ev("DropEnd") /\ Adv /\ closed /\ dropEnded' = TRUE
-            /\ UNCHANGED <<appended, handed, lateAppend, closed>>
+            /\ UNCHANGED <<appended, handed, lateAppend, closed, ivals, nmany>>
+CAppMany == /\ Ev("AppMany") /\ Adv
+            /\ Rec[l].a <= Rec[l].b
+            /\ \A iv \in ivals : Rec[l].b < iv[1] \/ iv[2] < Rec[l].a
+            /\ ivals' = ivals \cup {<<Rec[l].a, Rec[l].b>>}
+            /\ nmany' = nmany + (Rec[l].b - Rec[l].a + 1)
+            /\ lateAppend' = (lateAppend \/ dropEnded)
+            /\ UNCHANGED <<appended, handed, dropEnded, closed>>
+WasAppended(e) == e \in appended \/ \E iv \in ivals : iv[1] <= e /\ e <= iv[2]
 COverflows == /\ Ev("Overflows") /\ Adv
               /\ dropEnded /\ ~lateAppend
-              /\ handed \subseteq appended
-              /\ Rec[l].n = Cardinality(appended) - Cardinality(handed)
-              /\ UNCHANGED <<appended, handed, dropEnded, lateAppend, closed>>
+              /\ \A e \in handed : WasAppended(e)
+              /\ \A e \in appended : \A iv \in ivals : e < iv[1] \/ iv[2] < e
+              /\ Rec[l].n = Cardinality(appended) + nmany - Cardinality(handed)
+              /\ UNCHANGED <<appended, handed, dropEnded, lateAppend, closed, ivals, nmany>>
 Skip == /\ l <= N
         /\ Rec[l].ev \in {"AppStart", "Report", "Flush", "FlushReq", "FlushDone", "DropStart",
                           "SinkDrop", "Quiesce", "Forget", "SinkClone", "SelfMetrics", "SubInstalled", "BurstBegin", "BurstEnd"}
-        /\ Adv /\ UNCHANGED <<appended, handed, dropEnded, lateAppend, closed>>
+        /\ Adv /\ UNCHANGED <<appended, handed, dropEnded, lateAppend, closed, ivals, nmany>>
 
-CNext_ == CReset \/ CAppEnd \/ CNext \/ CClose \/ CDropEnd \/ COverflows \/ Skip
+CNext_ == CReset \/ CAppEnd \/ CAppMany \/ CNext \/ CClose \/ CDropEnd \/ COverflows \/ Skip
 CSpec == CInit /\ [][CNext_]_cvars
 
 Track == /\ IF l > TLCGet(1) THEN TLCSet(1, l) /\ TLCSet(2, <<Cardinality(appended), Cardinality(handed), dropEnded, lateAppend, closed>>) ELSE TRUE
